@@ -105,7 +105,48 @@ func genC07(r *Rand, tier string) []Case {
 		var tags []string
 		var q, staged, inner *Stmt
 		stagedKey := ""
-		switch r.Intn(9) {
+		switch r.Intn(12) {
+		case 11: // UNION ALL branches with their own WITH below an enclosing WITH of 1-6 CTEs read by a further branch
+			tags = append(tags, "union-branches-own-with")
+			nc := 1 + r.Intn(6)
+			tags = append(tags, fmt.Sprintf("enclosing-ctes:%d", nc))
+			var encl []CTE
+			for k := 1; k <= nc; k++ {
+				encl = append(encl, CTE{Name: fmt.Sprintf("c%d", k), Q: &Stmt{From: &From{K: "table", Path: []string{"t"}}, Items: []Item{{E: Col("id")}, {E: Col("n1")}},
+					Where: Cmp(Pick(r, cmpOps), Col("id"), Num(float64(k)))}})
+			}
+			own := func(name string) *Stmt {
+				iq := &Stmt{From: &From{K: "table", Path: []string{"t"}}, Items: []Item{{E: Col("id")}, {E: Col("n1")}}, Where: Cmp(Pick(r, cmpOps), Col("n1"), Num(t.numConst(r)))}
+				return &Stmt{From: &From{K: "table", Path: []string{name}}, Items: []Item{{E: Col("id")}}, With: []CTE{{Name: name, Q: iq}}}
+			}
+			names := Pick(r, [][2]string{{"x", "y"}, {"x", "x"}, {"c1", "y"}})
+			third := &Stmt{From: &From{K: "table", Path: []string{fmt.Sprintf("c%d", nc)}}, Items: []Item{{E: Col("id")}}}
+			q = &Stmt{Union: true, All: true, With: encl, L: &Stmt{Union: true, All: true, L: own(names[0]), R: own(names[1])}, R: third}
+		case 9: // a CTE whose body has its own WITH re-using the name of an enclosing CTE; the enclosing one is read afterwards
+			tags = append(tags, "cte-nested-with-same-name")
+			q1, _, _ := innerQuery(r, t, &tags)
+			q2, _, _ := innerQuery(r, t, &tags)
+			q1.Items, q2.Items = []Item{{E: Col("id")}, {E: Col("n1")}}, []Item{{E: Col("id")}, {E: Col("n1")}}
+			q1.Group, q2.Group = nil, nil
+			body := &Stmt{From: &From{K: "table", Path: []string{"a"}}, Items: []Item{{Star: true}}, With: []CTE{{Name: "a", Q: q2}}}
+			// (reading the enclosing CTE through `<-` from a subquery would also expose a leak, but CTEs seen through
+			// `<-` are outside the model — see ASSUME — so the enclosing CTE is read by a join partner)
+			q = &Stmt{From: &From{K: "join", JT: Pick(r, []string{"inner", "left"}), Strat: "auto", L: &From{K: "table", Path: []string{"b"}, Alias: "x"},
+				R: &From{K: "table", Path: []string{"a"}, Alias: "y"}, On: Cmp(Pick(r, []string{"=", "!=", "<="}), Col("x", "id"), Col("y", "id"))},
+				Items: []Item{{E: Col("x", "id"), Alias: "bid"}, {E: Col("y", "id"), Alias: "aid"}, {E: Col("y", "n1"), Alias: "an"}}}
+			q.With = []CTE{{Name: "a", Q: q1}, {Name: "b", Q: body}}
+		case 10: // two-level subquery: the inner one reads the OUTER row's nested array through the first subquery
+			tags = append(tags, "subquery-two-level-mixed")
+			for _, v := range vals {
+				v.(map[string]any)["v"] = Pick(r, numPool[:6])
+			}
+			lvl2 := &Stmt{From: &From{K: "table", Path: []string{"<-", "items"}}, Items: []Item{{E: Col("p")}}}
+			var w *Expr = &Expr{K: "insub", Neg: r.Chance(30), A: Col("v"), Q: lvl2}
+			if r.Bool() {
+				w = &Expr{K: "exists", Q: &Stmt{From: &From{K: "table", Path: []string{"<-", "items"}}, Items: []Item{{Star: true}}, Where: Cmp(">=", Col("p"), Num(float64(r.Intn(4))))}}
+			}
+			sub := &Stmt{From: &From{K: "table", Path: []string{"<-", "vals"}}, Items: []Item{{E: &Expr{K: "agg", Name: "count", Star: true}, Alias: "k"}}, Where: w}
+			q = &Stmt{From: &From{K: "table", Path: []string{"t"}}, Items: []Item{{E: Col("id")}, {E: &Expr{K: "sub", Q: sub}, Alias: "sub"}}}
 		case 0, 1: // single CTE
 			tags = append(tags, "cte")
 			inner, _, _ = innerQuery(r, t, &tags)
